@@ -345,7 +345,7 @@ def main_run(prop: str, tier: str, seed: int, replay: str | None = None) -> int:
         ex = executable_lines(f)
         coverage_of_anchors[os.path.relpath(f, repo_path())] = {
             "executable_lines": len(ex), "lines_reached": len(ls & ex) if ex else len(ls),
-            "not_reached": sorted(ex - ls)[:40]}
+            "not_reached": sorted(ex - ls)[:400]}
     counters, buckets, keys = Counter(), Counter(), set()
     samples, violations, evaluations = [], [], 0
     for d in results:
